@@ -39,8 +39,29 @@ def load_prop(pid: str) -> Any:
     return importlib.import_module(f"vf.props.{pid.lower()}")
 
 
+def _start_coverage() -> None:
+    """Developer aid (vf.covreport): line coverage of the code under test by one shard."""
+    covdir = os.environ.get("VERIF_COV")
+    if not covdir:
+        return
+    import atexit
+
+    import coverage
+
+    cov = coverage.Coverage(data_file=str(Path(covdir) / ".coverage"), data_suffix=True, branch=True,
+                            source=[str(common.REPO / "src")], config_file=False)
+    cov.start()
+
+    def _save() -> None:
+        cov.stop()
+        cov.save()
+
+    atexit.register(_save)
+
+
 def worker(args: argparse.Namespace) -> int:
     common.bootstrap()
+    _start_coverage()
     prop = load_prop(args.id)
     rec = Recorder(prop, args.tier, args.seed, os.environ.get("PYTHONHASHSEED", "?"))
     rng = random.Random(f"{args.id}/{args.seed}")
